@@ -70,7 +70,7 @@ M15 ==
   /\ (IsKv /\ E.op = "get" /\ Cardinality(B.cand[E.k]) > 1 => GetOK(B, E.k, E.ok = 1, E.nx = 1, E.rv, E.torn))
   \* a replayed schedule of FsAtomic / a free-running stress: every Get gave a complete value that was Set, or absent;
   \* no Set, Get or Delete failed
-  /\ (IsKv /\ E.op \in {"sched", "stress"} => E.torn = 0 /\ E.unknown = 0 /\ E.ok = 1 /\ (E.op = "stress" => E.st = 0))
+  /\ (IsKv /\ E.op \in {"sched", "stress"} => E.torn = 0 /\ E.unknown = 0 /\ E.ok = 1 /\ (E.op = "stress" => E.st = 0 /\ E.absent = 0))
 
 \* C17: encryption at rest
 M17 == IsKv =>
